@@ -24,18 +24,19 @@ use simdev::simrun;
 const MBX_OUT: u16 = 0x1000;
 const MBX_IN: u16 = 0x1400;
 
-fn coe_desc(mailbox_size: u16) -> DeviceDescription {
+/// `mailbox_size`: the device's send mailbox (responses); `write_size`: its receive mailbox (requests).
+fn coe_desc(mailbox_size: u16, write_size: u16) -> DeviceDescription {
     let mut d = devices::coe_device("X");
     apply_tag(&mut d, 1, true);
     if let Some(m) = d.mailbox.as_mut() {
         m.recv_offset = MBX_OUT;
-        m.recv_size = mailbox_size;
+        m.recv_size = write_size;
         m.send_offset = MBX_IN;
         m.send_size = mailbox_size;
-        m.bootstrap = [MBX_OUT, mailbox_size, MBX_IN, mailbox_size];
+        m.bootstrap = [MBX_OUT, write_size, MBX_IN, mailbox_size];
     }
     d.sync_managers[0].start = MBX_OUT;
-    d.sync_managers[0].length = mailbox_size;
+    d.sync_managers[0].length = write_size;
     d.sync_managers[1].start = MBX_IN;
     d.sync_managers[1].length = mailbox_size;
     d.sync_managers[2].start = 0x1800;
@@ -50,7 +51,9 @@ fn make(case: &Value) -> Result<Env, Obj> {
     if !(min..=1024).contains(&size) {
         return Err(unsupported(case, "mailbox_size must be 16..=1024 (6..=1024 for scripted replies)"));
     }
-    let desc = coe_desc(size as u16);
+    // "write_mailbox_size": the receive mailbox may have another size than the send mailbox
+    let wsize = get_u64(case, "write_mailbox_size", size).clamp(16, 1024);
+    let desc = coe_desc(size as u16, wsize as u16);
     let dut = build_device("dut", &desc, DcKind::None, false);
     let seg = Segment::line(vec![coupler_device(), dut]);
     make_env(seg, 8, 1100, default_timeouts()).ok_or_else(|| unsupported(case, "storage"))
